@@ -95,6 +95,23 @@ theorem build_twice_eq_once (cfg : Cfg) (hm : cfg.mode = .build ∨ cfg.mode = .
     (runPass cfg a' src first).1 = .ok ∧ ∀ q, (runPass cfg a' src first).2.file? q = a'.file? q :=
   runPass_idempotent cfg hm a a' src first content o bs hfile hout hbs hsrc hsafe hprobes h1
 
+/-- The side condition is executable: `srcSafeB` (computed by the model driver for every source of
+every generated tree of the C08 job, counts in the evidence) decides it, and where it answers `true`
+building twice equals building once with no further hypothesis. -/
+theorem build_twice_eq_once_where_checked (cfg : Cfg) (hm : cfg.mode = .build ∨ cfg.mode = .inMemory) (a a' : FS) (src : Path)
+    (first : Bool) (hs : srcSafeB cfg a src = some true) (h1 : runPass cfg a src first = (.ok, a')) :
+    (runPass cfg a' src first).1 = .ok ∧ ∀ q, (runPass cfg a' src first).2.file? q = a'.file? q :=
+  idempotent_where_checked cfg hm a a' src first hs h1
+
+/-- … and leftovers at the generated paths are irrelevant there -/
+theorem leftovers_irrelevant_where_checked (cfg : Cfg) (hm : cfg.mode = .build ∨ cfg.mode = .inMemory) (a b : FS) (src : Path)
+    (first : Bool) (hs : srcSafeB cfg a src = some true)
+    (hag : ∀ content o bs, a.file? src = some content → outputPath src = some o →
+      srcBlocks cfg.mode (decodeLines (byteLines content.toList)).1 = some bs → Agree (generated cfg a src.dropLast o bs) a b) :
+    (runPass cfg a src first).1 = (runPass cfg b src first).1 ∧
+    ((runPass cfg a src first).1 = .ok → ∀ q, (runPass cfg a src first).2.file? q = (runPass cfg b src first).2.file? q) :=
+  leftovers_where_checked cfg hm a b src first hs hag
+
 /-- what is still stale after the blocks of a source are exactly the stale paths no temp block wrote -/
 theorem stale_after_characterised (cfg : Cfg) (fs0 : FS) (wd : Path) (q : Path) (bs : List (Refine.Block Directive)) (S : List Path) :
     q ∈ staleAfter cfg fs0 wd bs S ↔ q ∈ S ∧ ∀ d e, Refine.Block.dir d e ∈ bs → dirWrites cfg fs0 wd d ≠ some q :=
